@@ -232,6 +232,15 @@ def drain_family(go):
                     L = K.with_fresh(pre + ["build 5 sched=threads:%d:400000 cancel=thread:30000" % seed] + tail)
                     go(L, "drain-%s-%d" % (why, usedb), "drain family why=%s db=%d seed=%d" % (why, usedb, seed))
                     n += 1
+    # the task completing during the drain is the changed INPUT itself (its dependents have not started): the retry must bring the dependents up to
+    # date although the input "re-computes to the value it already holds in memory"
+    for usedb in (0, 1):
+        for seed in (1, 2, 3):
+            pre = ["db %d" % usedb, "rule 0 sig=0 obs=1", "rule 4 sig=1 obs=0 req=0", "rule 5 sig=0 obs=0 req=4", "set 0 1", "build 5", "set 0 2"]
+            for tail in (["build 5", "build 4"], (["restart", "build 5"] if usedb else ["build 4", "set 0 3", "build 5"])):
+                L = K.with_fresh(pre + ["build 5 sched=threads:%d:400000 cancel=thread:30000" % seed] + tail)
+                go(L, "drain-input-%d" % usedb, "drain family why=input db=%d seed=%d" % (usedb, seed))
+                n += 1
     return n
 
 
